@@ -546,7 +546,7 @@ pub fn run(ctx: &Ctx) {
     *ctx.exhaustive.lock().unwrap() = Some(true);
     random(ctx, if ctx.quick() { 10_000 } else { 150_000 });
     ctx.assume("models/expand.rs is a faithful reading of XCU 2.6 (validated against dash and bash at development time with tools/xshell.py)");
-    ctx.assume("not generated: unquoted $@/$* with empty positional parameters; \"$@\" sharing its quotes with other text when there are no positional parameters; switches, trims and ${#} on @ and *; single quotes/backslashes inside a double-quoted ${x-word}; non-blank IFS whitespace; tilde and pathname expansion (set -f)");
+    ctx.assume("not generated: unquoted $@/$* with empty positional parameters; \"$@\" sharing its quotes with other text when there are no positional parameters; switches, trims and ${#} on @ and *; $@/$* inside the word of a double-quoted ${x+word} when there are no positional parameters (zero fields by the letter of XCU 2.5.2 and in yash, one empty field in dash and bash); single quotes/backslashes inside a double-quoted ${x-word}; non-blank IFS whitespace; tilde and pathname expansion (set -f)");
 }
 
 /// dump cases for cross-shell validation (development tool)
